@@ -1036,4 +1036,24 @@ theorem prun_inv (ls : List PLabel) (s s' : PSt) (hinv : PInv s) (h : prun s ls 
       simp only [hs] at h
       exact ih s1 (pstep_inv s s1 l hinv hs) h
 
+theorem run_append (c : Cfg) (ls1 ls2 : List Label) (s s1 : St) (h : run c s ls1 = some s1) :
+    run c s (ls1 ++ ls2) = run c s1 ls2 := by
+  induction ls1 generalizing s with
+  | nil => simp only [run, Option.some.injEq] at h; subst h; rfl
+  | cons l ls ih =>
+    simp only [run, List.cons_append] at h ⊢
+    cases hs : step c s l with
+    | none => simp [hs] at h
+    | some s' => simp only [hs] at h ⊢; exact ih s' h
+
+theorem prun_append (ls1 ls2 : List PLabel) (s s1 : PSt) (h : prun s ls1 = some s1) :
+    prun s (ls1 ++ ls2) = prun s1 ls2 := by
+  induction ls1 generalizing s with
+  | nil => simp only [prun, Option.some.injEq] at h; subst h; rfl
+  | cons l ls ih =>
+    simp only [prun, List.cons_append] at h ⊢
+    cases hs : pstep s l with
+    | none => simp [hs] at h
+    | some s' => simp only [hs] at h ⊢; exact ih s' h
+
 end VaxisModel.Lemmas.ParserPools
